@@ -85,8 +85,14 @@ def probe_switches(ck, exe, model):
             body = lambda x: x.partition(" ;; ")[2]
             on = body(TL.split_cov(one(model, with_mask(a, 0)))[0])
             off = body(TL.split_cov(one(model, with_mask(a, 1 << i)))[0])
-            verdicts.append("present" if body(a) == on else ("repaired" if body(a) == off else "inconclusive"))
-        if all(v == "repaired" for v in verdicts):
+            if on == off:
+                # the regenerated tables already carry the WHATWG value: the switch no longer changes the model
+                verdicts.append("moot" if body(a) == on else "inconclusive")
+            else:
+                verdicts.append("present" if body(a) == on else ("repaired" if body(a) == off else "inconclusive"))
+        if all(v == "moot" for v in verdicts):
+            status[i] = "repaired (regenerated table carries the WHATWG value; switch has no effect)"
+        elif all(v == "repaired" for v in verdicts):
             status[i] = "repaired"
             mask |= 1 << i
         elif all(v == "present" for v in verdicts):
